@@ -10,7 +10,11 @@ RULE = ("keys {1, 2, n-1, n-2, (n-1)/2, random, leading-zero} x both compression
         "verify_digest(Sha256d) over a preimage built independently by the driver; tampering: single-bit corruptions of message, "
         "of every region of the compact signature (header, r, s) and of the address hash, the address of the other compression "
         "form, the address of another key, and re-prefixed addresses as positive control; explicit compact signatures with headers "
-        "26..35, wrong lengths, r/s out of range; sign_message_with_k; "
+        "26..35, wrong lengths, r/s out of range; sign_message_with_k with both compression forms on both keys and the same key in both "
+        "roles; deterministic value-dependent stream: digests / r / s / keys / public x, y / HASH160 with leading zero bytes, top-bit keys; "
+        "every negative check (other message, corrupted header / r / s, other hash, other compression form, other key) and the positive "
+        "control under each prefix class 00, 6f, 05, 90, ff; message lengths 251..257, 508..512, 509, 65534; is_valid_message and "
+        "is_valid_bitcoin_message next to verify_message / verify_bitcoin_message in every verification; "
         "non-trivial = the model returns a value (not an early error); distinct by (op, arguments)")
 TRUSTED = ["hand-written Gallina model coq/Model/Bsm.v of src/bsm/mod.rs on top of Model/Ecdsa.v, Model/Sig.v (ECDSA entry points, recovery, "
            "compact form), Model/Keys.v (addresses), Model/VarInt.v (tied by this correspondence run)",
@@ -72,16 +76,16 @@ def generate(rng, tier):
         d = rng.choice(ks)
         A("bsm.compact_verify", kb(d), rng.randrange(2), "l:%d:%d" % (rng.randrange(1, 2 ** 31), n), rng.choice(prefixes()))
         A("bsm.sign", kb(rng.choice(ks)), rng.randrange(2), msg(rng, n))
-    for _ in range(80 if thorough else 22):
+    for _ in range(80 if thorough else 8):
         A("bsm.compact_verify", kb(rng.choice(ks)), rng.randrange(2), msg(rng, rng.randrange(0, 400)), "%02x" % rng.randrange(256))
     # the magic string itself / bytes that look like length prefixes as message
     for m in ["18426974636f696e205369676e6564204d6573736167653a0a", "fd", "fdfd00", "fe00000100", "00", "ff"]:
         A("bsm.compact_verify", kb(ks[0]), 1, m, "00")
 
     # tampering
-    reps = 6 if thorough else 2
+    reps = 6 if thorough else 1
     for r in range(reps):
-        for d in (ks if thorough else ks[:3] + ks[7:9]):
+        for d in (ks if thorough else [ks[2], ks[7], ks[8]]):
             c = rng.randrange(2)
             n = rng.choice([0, 1, 14, 100, 252, 253])
             m = msg(rng, n)
@@ -101,15 +105,57 @@ def generate(rng, tier):
     A("bsm.tamper", kb(d), 0, "l:5:252", "6f", "m", 8 * 252)      # appended byte moves the length across 252/253
     A("bsm.tamper", kb(d), 0, "l:5:253", "6f", "m", 8 * 252 + 7)
 
-    # sign with a caller-chosen nonce
-    for _ in range(12 if thorough else 4):
-        A("bsm.sign_k", kb(rng.choice(ks)), rng.randrange(2), kb(rng.randrange(1, N)), msg(rng, rng.choice(MSG_LENS)))
-    A("bsm.sign_k", kb(ks[0]), 1, kb(1), "616263")
-    A("bsm.sign_k", kb(ks[2]), 0, kb(N - 1), "")
-    A("bsm.sign_k", kb(ks[2]), 0, kb(0), "")
+    # sign with a caller-chosen nonce: both compression forms on BOTH keys, the same key in both roles
+    i = 0
+    for _ in range(12 if thorough else 1):
+        for c in (0, 1):
+            for nc in (0, 1):
+                A("bsm.sign_k", kb(rng.choice(ks)), c, kb(rng.randrange(1, N)), nc, msg(rng, MSG_LENS[i % len(MSG_LENS)]), ["00", "6f", "c4"][i % 3])
+                i += 1
+    A("bsm.sign_k", kb(ks[0]), 1, kb(1), 0, "616263", "00")
+    A("bsm.sign_k", kb(ks[2]), 0, kb(N - 1), 1, "", "6f")
+    A("bsm.sign_k", kb(ks[6]), 0, kb(ks[6]), 1, "616263", "00")       # signer and nonce are the same key
+    A("bsm.sign_k", kb(ks[6]), 1, kb(ks[6]), 0, "616263", "90")
+    A("bsm.sign_k", kb(ks[2]), 0, kb(0), 0, "", "00")
+    A("bsm.sign_k", kb(0), 0, kb(5), 0, "", "00")
     A("bsm.sign", kb(0), 1, "616263")
     A("bsm.sign", kb(N), 1, "616263")
     A("bsm.sign", "01", 1, "616263")
+
+    # ============================================================ audit additions (deterministic)
+    KT = 0x0c28fca386c7a227600b2fe50b7cae11ec86d3bf1fbe471be89827e19d72aa1d
+    pfx_classes = ["00", "6f", "05", "90", "ff"]          # mainnet, testnet, other < 0x90, >= 0x90
+    # --- value-dependent triggers: digest with leading zero bytes (messages "m300": one, "m7255": two), signatures of KT whose
+    #     r ("r562") or s ("r155") has a leading zero byte, keys with leading zero bytes / top bit, public keys whose x / y /
+    #     HASH160 have leading zero bytes (d = 153, 122, 44629, 182, 411)
+    for j, (d, m) in enumerate([(KT, b"m300"), (KT, b"m7255"), (KT, b"r562"), (KT, b"r155"), (1, b"Hello Bitcoin!"),
+                                (2 ** 248 - 1, b"abc"), (2 ** 255, b"abc"), (0xff, b""), (153, b"abc"), (122, b"abc"), (44629, b"x"),
+                                (182, b"abc"), (411, b"abc")]):
+        for c in (0, 1):
+            A("bsm.compact_verify", kb(d), c, m.hex(), pfx_classes[(j + c) % 5])
+        if thorough or j % 2 == 0:
+            A("bsm.tamper", kb(d), j % 2, m.hex(), pfx_classes[j % 5], "m", 0)
+        if thorough or j % 2 == 1:
+            A("bsm.tamper", kb(d), (j + 1) % 2, m.hex(), pfx_classes[(j + 2) % 5], "c", 0)
+    # --- negative checks on EVERY prefix class: other message, corrupted signature (header / r / s), other hash, other
+    #     compression form, other key; and the positive control
+    for j, pre in enumerate(pfx_classes):
+        for c in ((0, 1) if thorough else (j % 2,)):
+            d = [KT, 182, 153][(j + c) % 3]
+            A("bsm.tamper", kb(d), c, "48656c6c6f", pre, "m", 3)
+            A("bsm.tamper", kb(d), c, "48656c6c6f", pre, "s", [2, 100, 300, 0, 519][j])
+            A("bsm.tamper", kb(d), c, "48656c6c6f", pre, "h", 7 * j + c)
+            A("bsm.tamper", kb(d), c, "48656c6c6f", pre, "c", 0)
+            A("bsm.tamper", kb(d), c, "48656c6c6f", pre, "k", d + 1 if d < 2 ** 40 else 7)
+            A("bsm.tamper", kb(d), c, "48656c6c6f", pre, "p", [0x00, 0x6f, 0x05, 0x90, 0xff][(j + 1) % 5])
+    # --- length bands of the message: every length-prefix class boundary and low bytes that look like prefixes (sign only: cheap)
+    for n in [251, 255, 256, 257, 508, 509, 510, 511, 512, 0xfd + 256, 0xffff - 1]:
+        A("bsm.sign", kb(KT), n % 2, "l:%d:%d" % (n, n))
+    A("bsm.compact_verify", kb(KT), 1, "l:3:252", "90")
+    A("bsm.compact_verify", kb(KT), 0, "l:3:253", "ff")
+    # --- messages that look like something else: the preimage of another message, single bytes 00..16, flag bytes
+    for m in ["00", "01", "10", "16", "41", "fc", "fd", "fe", "ff", "18426974636f696e", "0a"]:
+        A("bsm.sign", kb(KT), 1, m)
 
     # explicit compact signatures (not produced by signing): headers, lengths, ranges; random hashes
     h = hash160(sec1(pmul(ks[6], G), True)).hex()
